@@ -4,6 +4,7 @@ import (
 	"bytes"
 	"context"
 	"fmt"
+	"io"
 	"sync"
 	"sync/atomic"
 	"time"
@@ -438,6 +439,22 @@ func c15Received(r *fw.R, d c15Desc) {
 			}
 		}()
 	}
+	// half of the time the local side is in the middle of writing a message of its own while the Pings
+	// arrive: the Pongs go out between its frames, they do not wait for the message to end
+	var lw io.WriteCloser
+	if d.Seed%2 == 0 {
+		w, err := c.Writer(ctx, websocket.MessageText)
+		if err == nil {
+			_, err = w.Write([]byte("the local side has a message open while the Pings arrive; "))
+		}
+		if err != nil {
+			r.Violate("C15/attach-failed", "opening a local Writer: "+err.Error(), "")
+			return
+		}
+		lw = w
+		r.Count("ping_streams_received_while_a_local_writer_is_open", 1)
+		r.Key("received/%s/%s/local-writer-open", d.Role, d.Reader)
+	}
 	var wg sync.WaitGroup
 	wg.Add(1)
 	go func() {
@@ -448,7 +465,11 @@ func c15Received(r *fw.R, d c15Desc) {
 	}()
 	wg.Wait()
 	ok := peer.Wait(15*time.Second, func() bool { return len(peer.Conf.Pongs) >= len(want) })
-	what := fmt.Sprintf("%s %s reader=%s", d.Role, paramsKey(d.Params), d.Reader)
+	what := fmt.Sprintf("%s %s reader=%s local-writer-open=%v", d.Role, paramsKey(d.Params), d.Reader, lw != nil)
+	if lw != nil {
+		lw.Write([]byte("done"))
+		lw.Close()
+	}
 	peer.Locked(func() {
 		gotP := peer.Conf.Pongs
 		if !ok {
